@@ -34,3 +34,28 @@ Theorem C12_too_short : forall uid fields sc n idx t vol,
   get_field uid fields uid sc n = GfErr InvalidReport.
 Proof. exact get_field_too_short. Qed.
 Print Assumptions C12_too_short.
+
+(* translator obligations (lib/gen_statespace.py reads the structs, statics and mutable bindings of the
+   modelled code on every run): the code has the state the model represents and no other *)
+From Portus Require Import StateTie.
+From PortusGen Require Import StateSpace.
+From Coq Require Import String.
+Open Scope string_scope.
+Theorem C12_source_report_state : impl_fields_Report = model_fields_Report.
+Proof. exact fields_Report_tie. Qed.
+Print Assumptions C12_source_report_state.
+Theorem C12_source_handle_state : impl_fields_Datapath = model_fields_Datapath.
+Proof. exact fields_Datapath_tie. Qed.
+Print Assumptions C12_source_handle_state.
+Theorem C12_source_shared_state_lib : nth 0 impl_shared_state_tokens "" = "src/lib.rs: HashMap".
+Proof. exact shared_state_lib. Qed.
+Print Assumptions C12_source_shared_state_lib.
+Theorem C12_source_shared_state_lang_mod : nth 5 impl_shared_state_tokens "" = "src/lang/mod.rs: -".
+Proof. exact shared_state_lang_mod. Qed.
+Print Assumptions C12_source_shared_state_lang_mod.
+
+(* the library has one process-wide static, the uid counter: nothing a handle or a lookup could
+   consult instead of the scope it is given *)
+Theorem C12_source_statics : impl_statics = model_statics.
+Proof. exact statics_tie. Qed.
+Print Assumptions C12_source_statics.
